@@ -43,7 +43,8 @@ fn exec(ctx: &mut Ctx, line: &str) -> String {
         "store" => fam_store::exec_store(ctx, &mut t),
         "trk" => fam_trk::exec(ctx, &mut t),
         "kf" => fam_kf::exec(ctx, &mut t),
-        "smetric" => fam_smetric::exec(ctx, &mut t),
+        "smetric" => fam_smetric::exec(ctx, &mut t, false),
+        "smetricw" => fam_smetric::exec(ctx, &mut t, true),
         "geom" => fam_geom::exec_geom(ctx, &mut t),
         "own" => fam_geom::exec_own(ctx, &mut t),
         "py" => fam_py::exec(ctx, &mut t),
